@@ -933,4 +933,34 @@ def headersOf : Outcome → Option Headers
 def respond (fmt : Int → Str) (ds : Dataset) (ext query : Str) : Outcome :=
   handle fmt ds (cs!"/d." ++ ext) query
 
+/-! ### a server process holding several datasets
+
+  Handlers living in one process (a `DapServer` directory, several mounted applications): each
+  holds its dataset; a request names its handler.  Serving hands the process back: what pydap keeps
+  between requests is the handlers and their datasets, and `__call__` works on
+  `copy.copy(self.dataset)`, on per-request responses and on no module-level table.  That the
+  process is unchanged is what the model *claims* about the code; the claim is tied by running
+  whole histories against handlers that live in one Python process. -/
+
+structure Proc where
+  handlers : List (Str × Dataset)
+deriving DecidableEq, Repr
+
+structure Req where
+  target : Str
+  path : Str
+  query : Str
+deriving DecidableEq, Repr
+
+/-- one request: the answer (`none`: no handler of that name) and the process afterwards -/
+def serve (fmt : Int → Str) (p : Proc) (r : Req) : Option Outcome × Proc :=
+  match p.handlers.find? (·.1 = r.target) with
+  | none => (none, p)
+  | some h => (some (handle fmt h.2 r.path r.query), p)
+
+/-- a history of requests served one after the other by the same process -/
+def run (fmt : Int → Str) : Proc → List Req → List (Option Outcome)
+  | _, [] => []
+  | p, r :: rs => (serve fmt p r).1 :: run fmt (serve fmt p r).2 rs
+
 end Pydap.Handler
